@@ -362,6 +362,143 @@ theorem fpow_eq (b e : Nat) : fpow b e = b ^ e % p := by
 
 theorem finv_eq (z : Nat) : finv z = z ^ (p - 2) % p := fpow_eq z (p - 2)
 
+/-! ## low-order points -/
+
+theorem fpow_zero (e : Nat) (h : 0 < e) : fpow 0 e = 0 := by
+  rw [fpow_eq, Nat.zero_pow h]; rfl
+
+theorem finv_zero : finv 0 = 0 := fpow_zero _ (by decide)
+
+theorem fsub_self_mod (a : Nat) : fsub (a % p) (a % p) = 0 := by
+  unfold fsub
+  rw [Nat.mod_mod]
+  have := Nat.mod_lt a p_pos
+  rw [show a % p + p - a % p = p by omega, Nat.mod_self]
+
+/-- with x1 = 0 and z2 = 0 the doubling half of the loop body keeps z2 = 0 -/
+theorem ladderBody_z2_zero (x1 x2 x3 z3 : Nat) : (ladderBody x1 x2 0 x3 z3).2.1 = 0 := by
+  simp only [ladderBody]
+  have hA : fadd x2 0 = x2 % p := by simp [fadd]
+  have hB : fsub x2 0 = x2 % p := by
+    simp only [fsub, Nat.zero_mod, Nat.sub_zero, Nat.add_mod_right]
+  rw [hA, hB]
+  have : fsq (x2 % p) = (x2 % p * (x2 % p)) % p := rfl
+  rw [this, fsub_self_mod]
+  simp [fmul]
+
+/-- with x1 = 0 the differential-addition half always has z3' = 0 -/
+theorem ladderBody_z3_zero (x2 z2 x3 z3 : Nat) : (ladderBody 0 x2 z2 x3 z3).2.2.2 = 0 := by
+  simp [ladderBody, fmul]
+
+theorem specStep_z_zero (R : (Nat × Nat) × (Nat × Nat)) (b : Nat) (h : R.1.2 = 0) :
+    (specStep 0 R b).1.2 = 0 := by
+  unfold specStep
+  by_cases hb : b = 1
+  · simp only [hb, ↓reduceIte]
+    exact ladderBody_z3_zero _ _ _ _
+  · simp only [hb, ↓reduceIte]
+    obtain ⟨⟨x2, z2⟩, ⟨x3, z3⟩⟩ := R
+    simp only at h
+    subst h
+    exact ladderBody_z2_zero _ _ _ _
+
+theorem specFold_z_zero (bits : List Nat) (R : (Nat × Nat) × (Nat × Nat)) (h : R.1.2 = 0) :
+    (bits.foldl (specStep 0) R).1.2 = 0 := by
+  induction bits generalizing R with
+  | nil => simpa using h
+  | cons b t ih => simp only [List.foldl_cons]; exact ih _ (specStep_z_zero R b h)
+
+/-- **u ≡ 0 (the point of order 2) gives 0 for EVERY scalar** -/
+theorem ladder_zero_of_u_zero (k u : Nat) (hu : u % p = 0) : ladder k u = 0 := by
+  rw [ladder_eq_ladderSpec]
+  unfold ladderSpec
+  simp only [hu]
+  rw [specFold_z_zero _ _ rfl, finv_zero]
+  simp [fmul]
+
+/-- (x2, z2) after the final cswap: `ladder k u = x2 · z2^(p−2)` -/
+def ladderXZ (k u : Nat) : Nat × Nat :=
+  let x1 := u % p
+  let s := (bitsDown k 255).foldl (ladderStep x1) ⟨1, 0, x1, 1, 0⟩
+  ((cswap s.swap s.x2 s.x3).1, (cswap s.swap s.z2 s.z3).1)
+
+theorem ladder_eq_XZ (k u : Nat) : ladder k u = fmul (ladderXZ k u).1 (finv (ladderXZ k u).2) := rfl
+
+/-- the seven low-order u-coordinates (order 1, 2, 4, 8 on the curve and its twist) -/
+def lowOrderU : List Nat :=
+  [0, 1,
+   325606250916557431795983626356110631294008115727848805560023387167927233504,
+   39382357235489614581723060781553021112529911719440698176882885853963445705823,
+   p - 1, p, p + 1]
+
+/-- every 32-byte encoding that RFC 7748 maps onto one of them: `u` and `u + 2^255` (bit 255 is
+    masked); `p`, `p+1` are the non-canonical aliases of 0 and 1 — 14 strings -/
+def lowOrderEncodings : List Bytes :=
+  lowOrderU.flatMap (fun u => [natToLE 32 u, natToLE 32 (u + 2 ^ 255)])
+
+def sampleScalars : List Bytes :=
+  [List.replicate 32 0, List.replicate 32 0xff,
+   natToLE 32 0xc49a44ba44226a50185afcc10a4c1462dd5e46824b15163b9d7c52f06be346a5]
+
+set_option maxRecDepth 100000 in
+theorem lowOrder_xz_zero :
+    ∀ u ∈ lowOrderEncodings, ∀ k ∈ sampleScalars,
+      (ladderXZ (decodeScalar k) (decodeU u)).2 = 0 ∨ (ladderXZ (decodeScalar k) (decodeU u)).1 = 0 := by
+  decide +kernel
+
+
+theorem encodeU_zero : encodeU 0 = zeros 32 := by decide
+
+theorem ladder_zero_of_xz (k u : Nat) (h : (ladderXZ k u).2 = 0 ∨ (ladderXZ k u).1 = 0) : ladder k u = 0 := by
+  rw [ladder_eq_XZ]
+  rcases h with h | h
+  · rw [h, finv_zero]; simp [fmul]
+  · rw [h]; simp [fmul]
+
+/-- **u ≡ 0 mod p (encodings 0, p and their top-bit aliases): X25519 errs for EVERY scalar**, and
+    ScalarMult writes 32 zero bytes -/
+theorem X25519_err_of_u_zero (s pt : Bytes) (hs : s.length = 32) (hp : pt.length = 32)
+    (h : decodeU pt % p = 0) :
+    rfcX25519 s pt = zeros 32 ∧ X25519 rfcX25519 s pt = .err := by
+  have hz : rfcX25519 s pt = zeros 32 := by
+    unfold rfcX25519
+    rw [ladder_zero_of_u_zero _ _ h, encodeU_zero]
+  exact ⟨hz, (X25519_err_iff_zero rfcX25519 rfcX25519_length s pt hs hp).1.mpr hz⟩
+
+/-- the four 32-byte strings with `decodeU ≡ 0` -/
+theorem u_zero_encodings :
+    ∀ u ∈ [natToLE 32 0, natToLE 32 p, natToLE 32 (2 ^ 255), natToLE 32 (p + 2 ^ 255)],
+      u.length = 32 ∧ decodeU u % p = 0 := by
+  decide
+
+/-- **finite statement (a test, evaluated by the kernel)**: on all 14 encodings of the 7 low-order
+    u-coordinates, for three scalars (all-zero, all-ones, the RFC 7748 vector scalar), the RFC
+    function value is all zero and X25519 reports an error. -/
+theorem x25519_zero_on_low_order :
+    ∀ u ∈ lowOrderEncodings, ∀ k ∈ sampleScalars,
+      rfcX25519 k u = zeros 32 ∧ X25519 rfcX25519 k u = .err := by
+  intro u hu k hk
+  have hz : rfcX25519 k u = zeros 32 := by
+    unfold rfcX25519
+    rw [ladder_zero_of_xz _ _ (lowOrder_xz_zero u hu k hk), encodeU_zero]
+  have hul : u.length = 32 := by
+    simp only [lowOrderEncodings, List.mem_flatMap] at hu
+    obtain ⟨v, _, hv⟩ := hu
+    simp only [List.mem_cons, List.not_mem_nil, or_false] at hv
+    rcases hv with rfl | rfl <;> exact natToLE_length _ _
+  have hkl : k.length = 32 := by
+    simp only [sampleScalars, List.mem_cons, List.not_mem_nil, or_false] at hk
+    rcases hk with rfl | rfl | rfl
+    · simp
+    · simp
+    · exact natToLE_length _ _
+  exact ⟨hz, (X25519_err_iff_zero rfcX25519 rfcX25519_length k u hkl hul).1.mpr hz⟩
+
+/-- and the converse on instances: the base point is not low order for these scalars -/
+theorem x25519_nonzero_on_basepoint_samples :
+    ∀ k ∈ sampleScalars, (ladderXZ (decodeScalar k) 9).2 % p ≠ 0 ∧ (ladderXZ (decodeScalar k) 9).1 % p ≠ 0 := by
+  decide +kernel
+
 /-! ## what is not proved -/
 
 /-- Full statement, part 1 (functional): the real X25519 is the RFC function. Over the model this
